@@ -251,6 +251,44 @@ func c13sRun(c *hx.Ctx, cs c13sCase) error {
 	committed := map[int]map[int]string{} // height -> key -> balance string
 	cur := map[int]string{}
 	height := 0
+	justRolled := false
+	// a read-only view of a retained height, compared with what was committed at that height
+	readRetained := func(h int) {
+		defer func() {
+			if rec := recover(); rec != nil {
+				fail("C13:readonly-view-of-retained-height-panics", fmt.Sprintf("Readonly(%d) at canonical height %d: %v", h, height, rec))
+			}
+		}()
+		k := c13sKey(r, nKeys)
+		ro, err := app.Readonly(uint64(h))
+		if err != nil {
+			c.Line(fmt.Sprintf("rget %d %d", h, k), "nover")
+			fail("C13:retained-version-not-readable", fmt.Sprintf("Readonly(%d) at height %d: %v", h, height, err))
+			return
+		}
+		kv := 400 + r.Intn(6)
+		gv := c13sValidated(ro, kv)
+		c.Line(fmt.Sprintf("rget %d %d", h, kv), gv)
+		wv := "val -"
+		if _, ok := committed[h][kv]; ok {
+			wv = "val 1"
+		}
+		if gv != wv {
+			fail("C13:view-validators-not-of-its-height", fmt.Sprintf("Readonly(%d).ValidatorsCache.IsValidated(identity %d) = %s, committed at that height: %s (canonical height %d)", h, kv-400, gv, wv, height))
+		}
+		for j := 0; j < 3; j++ {
+			got := c13sBal(ro.State, k)
+			c.Line(fmt.Sprintf("rget %d %d", h, k), got)
+			want := "val -"
+			if v, ok := committed[h][k]; ok {
+				want = "val " + v
+			}
+			if got != want {
+				fail("C13:readonly-view-not-exact", fmt.Sprintf("Readonly(%d).GetBalance(key %d) = %s, committed at that height: %s (canonical height %d)", h, k, got, want, height))
+			}
+			k = c13sKey(r, nKeys)
+		}
+	}
 	for b := 0; b < cs.Blocks; b++ {
 		// the validated flag of six identities (kind 4: 400+k), written through the identity state of both twins; views see it
 		// through their ValidatorsCache (built for the height the view is opened on)
@@ -308,6 +346,15 @@ func c13sRun(c *hx.Ctx, cs c13sCase) error {
 			snap[k] = v
 		}
 		committed[height] = snap
+		if justRolled {
+			// another block now stands at a height the rolled-back chain had: views of it must show this block
+			readRetained(height)
+			if height > 1 {
+				readRetained(height - 1)
+			}
+			justRolled = false
+			c.Hit("readonly:after-rollback-and-new-block")
+		}
 		// range iteration right after the commit, then (often) an abandoned block attempt: writes that reach the working
 		// tree, iteration over the dirty tree, Reset — nothing of it may stay visible to point reads or range iteration
 		it0 := c13sIter(app.State)
@@ -475,6 +522,36 @@ func c13sRun(c *hx.Ctx, cs c13sCase) error {
 		}
 		k := c13sKey(r, nKeys)
 		c.Line(fmt.Sprintf("cget %d", k), c13sBal(app.State, k))
+		// a rollback of committed blocks (AppState.ResetTo, as a fork switch does): the versions above the target are gone and
+		// the next blocks are other blocks at the same heights; reads of the old head before and of the new head after it
+		// (whatever is cached per height must not outlive the rollback)
+		if r.Intn(5) == 0 && height >= 4 {
+			d := 1
+			if r.Intn(3) == 0 {
+				d = 2 + r.Intn(2)
+			}
+			readRetained(height)
+			if err := app.ResetTo(uint64(height - d)); err != nil {
+				fail("C13:rollback-to-retained-version-failed", fmt.Sprintf("ResetTo(%d) at height %d: %v", height-d, height, err))
+				return nil
+			}
+			if err := twin.ResetTo(uint64(height - d)); err != nil {
+				return err
+			}
+			c.Line(fmt.Sprintf("rollto %d", height-d), "ok")
+			for h := height - d + 1; h <= height; h++ {
+				delete(committed, h)
+			}
+			height -= d
+			cur = map[int]string{}
+			for kk, v := range committed[height] {
+				cur[kk] = v
+			}
+			readRetained(height)
+			c.Line("citer", c13sIter(app.State))
+			justRolled = true
+			c.Hit(fmt.Sprintf("rollback:%d", d))
+		}
 	}
 	return nil
 }
